@@ -163,6 +163,8 @@ def main(argv=None):
         all_obs += obs
         if st == 'error':
             errors.append((gid, err[1]))
+            # the executor crashed on this code: no verdict from the verifier (exit 3), but the bounded stand-in still searches the real code
+            undecided.append((g, 'checker error (no verdict): ' + str(err[1])[-200:]))
         elif st == 'empty':
             errors.append((gid, 'group produced no obligations'))
         elif st == 'refuted':
@@ -337,6 +339,8 @@ def main(argv=None):
         for e in checker_errors:
             print('CHECKER-ERROR ' + e)
         return 3 if rc == 0 else rc
+    if rc == 0 and undecided:
+        return 2          # some obligation got no verdict and the bounded stand-in found nothing: neither held nor violated
     return rc
 
 
